@@ -36,6 +36,37 @@ var (
 	testKey *rsa.PrivateKey
 )
 
+//go:embed testkey_e3.pem
+var testKeyE3 []byte
+
+//go:embed testkey_e257.pem
+var testKeyE257 []byte
+
+//go:embed testkey_e2147483647.pem
+var testKeyEBig []byte
+
+var (
+	moreOnce sync.Once
+	moreKeys []*rsa.PrivateKey
+)
+
+// TestKeys returns the committed RSA-2048 key pairs: the usual one (e = 65537) and three whose public exponents
+// crypto/rsa never generates (3, 257, 2^31-1; made by cmd/keygen). A server may use any RSA-2048 key.
+func TestKeys() []*rsa.PrivateKey {
+	moreOnce.Do(func() {
+		moreKeys = []*rsa.PrivateKey{TestKey()}
+		for _, b := range [][]byte{testKeyE3, testKeyE257, testKeyEBig} {
+			blk, _ := pem.Decode(b)
+			k, err := x509.ParsePKCS1PrivateKey(blk.Bytes)
+			if err != nil {
+				panic(err)
+			}
+			moreKeys = append(moreKeys, k)
+		}
+	})
+	return moreKeys
+}
+
 // TestKey returns the committed RSA-2048 test key pair.
 func TestKey() *rsa.PrivateKey {
 	keyOnce.Do(func() {
@@ -105,6 +136,9 @@ type HSFields struct {
 	InnerOverride func(honest []byte) []byte
 	// ReplyOverride, if non-nil, replaces the whole plaintext reply body of this stage
 	ReplyOverride []byte
+	// AuthKey, Salt: what the server has derived by the time of the dh_gen stage (read-only, for fault scripts)
+	AuthKey []byte
+	Salt    int64
 	// RawBefore: transport payloads written (each as one frame) just before the reply of this stage
 	RawBefore [][]byte
 }
@@ -342,6 +376,10 @@ func (s *Server) NextMsgID(low int64) int64 {
 	n := atomic.AddInt64(&globalMsgCounter, 1)
 	return ((time.Now().Unix() + atomic.LoadInt64(&s.ClockOffset)) << 32) | ((n << 2) & 0xfffffffc) | low
 }
+
+// SetSeq sets the connection's count of content-related messages sent so far (a long-lived busy session is close
+// to the 2^31 wrap of seq_no: 2n+1 for n >= 2^30 is negative as int32).
+func (c *Conn) SetSeq(n int32) { atomic.StoreInt32(&c.seq, n) }
 
 // NextSeq returns the server seq_no for a content-related (odd) or service (even) message.
 func (c *Conn) NextSeq(content bool) int32 {
@@ -690,7 +728,7 @@ func (c *Conn) handlePlain(msgID int64, body []byte) {
 		gbI := new(big.Int).SetBytes(gb)
 		authKey := mtp.LeftPad(new(big.Int).Exp(gbI, h.a, mtp.DHPrime).Bytes(), 256)
 		salt := mtp.InitialSalt(h.newNonce, h.serverNonce)
-		f := &HSFields{Stage: "dh_gen", Nonce: h.nonce, ServerNonce: h.serverNonce, Constructor: 0x3bcbf734, NewNonceHash: mtp.NewNonceHash(h.newNonce, authKey, 1)}
+		f := &HSFields{Stage: "dh_gen", Nonce: h.nonce, ServerNonce: h.serverNonce, Constructor: 0x3bcbf734, NewNonceHash: mtp.NewNonceHash(h.newNonce, authKey, 1), AuthKey: authKey, Salt: mtp.InitialSalt(h.newNonce, h.serverNonce)}
 		if s.Tamper != nil {
 			s.Tamper(f)
 		}
